@@ -1,5 +1,37 @@
 //! Runtime-monitoring harness for mdns-sd (see /verif/DESIGN.md).
+pub mod alloc;
+pub mod facade;
+pub mod gen;
+pub mod props;
 pub mod report;
 pub mod util;
 pub mod wire;
 pub mod world;
+
+#[global_allocator]
+static GLOBAL: alloc::Counting = alloc::Counting;
+
+/// quick / thorough and the time budget of the workload part (seconds).
+pub struct Tier {
+    pub thorough: bool,
+    pub budget_s: f64,
+}
+
+impl Tier {
+    pub fn from_env(name: &str) -> Self {
+        let thorough = name == "thorough";
+        let default = if thorough { 420.0 } else { 40.0 };
+        let budget_s = std::env::var("VERIF_BUDGET_S")
+            .ok()
+            .and_then(|s| s.parse().ok())
+            .unwrap_or(default);
+        Self { thorough, budget_s }
+    }
+    pub fn name(&self) -> &'static str {
+        if self.thorough {
+            "thorough"
+        } else {
+            "quick"
+        }
+    }
+}
